@@ -29,6 +29,8 @@ def target(meta):
 def run_one(sid, wt):
     d = os.path.join(VERIF, "seeded", sid)
     meta = json.load(open(os.path.join(d, "meta.json")))
+    if meta.get("superseded"):
+        return sid, True, "superseded: no longer breaks the property (" + meta["superseded"][:60] + "...)"
     tg = target(meta)
     if tg is None:
         return sid, None, "no recorded detecting check"
